@@ -639,6 +639,9 @@ func (p *parser) primary() (Expr, error) {
 				srt := ""
 				if p.peek().kind == "id" { // optional sort
 					srt = p.next().s
+				} else if p.peek().kind == "op" && p.peek().s == "*" && p.p+1 < len(p.ts) && p.ts[p.p+1].kind == "id" { // pointer type
+					p.next()
+					srt = "*" + p.next().s
 				}
 				sorts = append(sorts, srt)
 				if !p.accept(",") {
